@@ -62,3 +62,6 @@ Print Assumptions C03_page_links_weight.
 Print Assumptions C03_links_iter.
 Print Assumptions C03_count_links.
 Print Assumptions C03_nonvacuous.
+
+(* accessor/constant table regenerated from the source: re-checked with this property *)
+From Traph Require AccessorFacts.
